@@ -444,6 +444,11 @@ def resident_parts(res, run_id, parallel=False):
     topology = {'grow': {'x': ('x',), 'y': ('y',)}}
     steps, flow = {}, {}
     if res.get('step'):
+        if res.get('chain'):
+            # listed first, but must run after 'obs' (its dependency)
+            steps['obs2'] = AgentStep({'name': 'obs2', 'run_id': run_id})
+            flow['obs2'] = [('obs',)]
+            topology['obs2'] = {'x': ('x',)}
         steps['obs'] = AgentStep({'name': 'obs', 'run_id': run_id})
         flow['obs'] = []
         topology['obs'] = {'x': ('x',)}
